@@ -25,6 +25,8 @@ func (sel *Selection) Find(path string) (*Selection, error) {
 	if err != nil {
 		return nil, err
 	}
+	// what is left after the leading ../ steps is resolved from where they lead
+	path = p
 	if qmark := strings.IndexRune(path, '?'); qmark >= 0 {
 		// use URL parser just to decode the query parameters
 		u, err := url.Parse(p)
@@ -37,7 +39,7 @@ func (sel *Selection) Find(path string) (*Selection, error) {
 		path = path[:qmark]
 	}
 
-	targetSlice, err := parseUrlPath(path, sel.Meta())
+	targetSlice, err := parseUrlPath(path, s.Meta())
 	if err != nil {
 		return nil, err
 	}
